@@ -1,5 +1,6 @@
 import SynapModel.Generated.OpTable
 import Proofs.EngineDuality
+import Proofs.EngineStack
 /-!
 # C03 — Gradients of arbitrary op compositions obey the chain rule on any DAG
 
@@ -81,5 +82,17 @@ def diamond : Graph Int := [
 example : (backward diamond 3 1 false).map (fun r => (r.1.map (·.grad), r.2))
     = some ([some 5, none, none, some 1], [.zero 1, .zero 0, .zero 2, .call 3, .call 2, .release 2, .call 1, .release 1]) := by
   decide
+
+/-- **The theorems are about the loop the code runs.** `tensor.py` walks the graph with an explicit stack of
+    `(node, iterator over its operands)` frames (`Synap.Engine.traverseStack`, a step-by-step model of that
+    `while` loop); on every graph it ends in exactly the state of the recursive traversal the other theorems
+    speak about: same visited set, same post-order, same buffers, same zero-initialisation events. -/
+theorem code_loop_is_recursive_traversal (ns : Graph G) (hw : WFG ns) (root : Nat) (hr : root < ns.length) :
+    traverseStack ns root = traverse ns root :=
+  Proofs.EngineStack.traverseStack_eq_traverse ns hw root hr
+
+theorem backward_with_code_loop [Add G] (ns : Graph G) (hw : WFG ns) (root : Nat) (g : G) (retainAll : Bool) :
+    Proofs.EngineStack.backwardStack ns root g retainAll = backward ns root g retainAll :=
+  Proofs.EngineStack.backwardStack_eq_backward ns hw root g retainAll
 
 end Props.C03
